@@ -979,6 +979,12 @@ class C12(Property):
 
     # ------------------------------------------------------------------ generators
     def gen_chunk(self, rng, tier):
+        if rng.chance(0.03):
+            # a long, highly compressible text: one compressed chunk expands to many kilobytes
+            n = rng.choice([400, 1500, 3000])
+            le = rng.choice(["\n", "\r\n"])
+            text = le.join("row %d,%s,%d" % (i, rng.choice(["x", "é", "中"]) if i % 97 == 0 else "v", i * 7) for i in range(n)) + le
+            return {"kind": "chunk", "text": text, "enc": rng.choice(["gzip", "deflate"]), "level": rng.choice([1, 6, 9]), "chunk": rng.choice([64, 256, 1024, 4096])}
         text = gen_doc(rng)
         enc = rng.choice([None, None, "gzip", "deflate"])
         level = rng.choice([0, 0, 6, 9])
@@ -1065,6 +1071,9 @@ class C12(Property):
             for enc in ("gzip", "deflate"):
                 for k in (1, 2, 3):
                     cs.append({"kind": "chunk", "text": text, "enc": enc, "level": 0, "chunk": k})
+        big = "\n".join("row %d,v,%d" % (i, i * 7) for i in range(2500)) + "\n"
+        cs.append({"kind": "chunk", "text": big, "enc": "gzip", "level": 9, "chunk": 1024})
+        cs.append({"kind": "chunk", "text": big, "enc": "deflate", "level": 6, "chunk": 256})
         cs.append({"kind": "chunk", "bytes": [0x61, 0xC3], "enc": None, "level": 6, "chunk": 1})          # truncated stream: an error either way
         cs.append({"kind": "chunk", "bytes": [0x61, 0xFF, 0x62], "enc": None, "level": 6, "chunk": 2})
         cs.append({"kind": "chunk", "bytes": [0xED, 0xA0, 0x80], "enc": None, "level": 6, "chunk": 3})    # surrogate
